@@ -2116,6 +2116,15 @@ func (a *Authenticator) handleClientAuthentication(ctx context.Context, negotiat
 	// Check if it's "YES" or if the negotiated auth method is not NONE
 
 	if !authRequired {
+		// The server decided against authentication. The client derived its own
+		// view from its level alone (the server's ad carries a YES/NO decision, not
+		// a level), so reconcile it with what will actually happen on the wire --
+		// and do not let a server talk a client whose own policy REQUIRES
+		// authentication into an unauthenticated session.
+		if a.config.Authentication == SecurityRequired {
+			return fmt.Errorf("server declined authentication but local policy requires it")
+		}
+		negotiation.Authentication = false
 		slog.Debug("🔐 CLIENT: No authentication required", "destination", "cedar")
 		return nil
 	}
@@ -2216,6 +2225,13 @@ func (a *Authenticator) handleClientAuthentication(ctx context.Context, negotiat
 			continue
 		}
 
+		// The server may only pick one of the methods we just offered. Running
+		// whatever single bit it names would let it steer us into a method this
+		// client never enabled (e.g. CLAIMTOBE when only TOKEN is configured).
+		if authMethodToBitmask(selectedMethod)&availableBitmask == 0 {
+			return fmt.Errorf("server selected authentication method %s, which was not offered (offered bitmask 0x%x)", selectedMethod, availableBitmask)
+		}
+
 		slog.Debug(fmt.Sprintf("🔐 CLIENT: Attempting authentication method: %s", selectedMethod), "destination", "cedar")
 
 		// Perform the specific authentication method
@@ -2232,6 +2248,9 @@ func (a *Authenticator) handleClientAuthentication(ctx context.Context, negotiat
 
 		slog.Debug(fmt.Sprintf("✅ CLIENT: Authentication successful with method: %s", selectedMethod), "destination", "cedar")
 		negotiation.NegotiatedAuth = selectedMethod
+		// Report what ran: the server asked for authentication and it completed,
+		// whatever this client's own level alone would have suggested.
+		negotiation.Authentication = true
 
 		// After successful authentication, perform key exchange as in HTCondor's Authentication::exchangeKey
 		// For modern HTCondor with AESGCM crypto, the server always sends an empty key
